@@ -127,7 +127,10 @@ class Gen:
             return t(rng.choice([1.5, -2.25, 1e300 if t is dt.Double else 1e30, 5e-324, float("inf"), float("-inf"), float("nan"),
                                  0.1, -0.0, 123456789.125]))
         if t is dt.Decimal:
-            return decimal.Decimal("0" if falsy else rng.choice(["1.5", "-0.001", "12345678901234567890.123456789", "100", "-7"]))
+            return decimal.Decimal("0" if falsy else rng.choice(["1.5", "-0.001", "12345678901234567890.123456789", "100", "-7",
+                                                                  # more significant digits than the default arithmetic context keeps (28)
+                                                                  "123456789012345678901234567891", "-0.1000000000000000000000000000001",
+                                                                  "1.00", "1E+3", "0.000000000000000000000000000000000001"]))
         if t is dt.Duration:
             if falsy:
                 return dt.Duration()
